@@ -46,6 +46,8 @@ def c01(res: CheckResult) -> None:
               F.with_bare_override(F.fam_pre(res.tier, rng), rng, 500 if res.tier == "quick" else 4000), ic)
     call_unit(res, "contract errors deriving from BaseException, the same contract violated three times in a row",
               list(F.fam_errbase(res.tier, rng)), ic)
+    call_unit(res, "contract errors that are falsy objects (exception types with __bool__ / __len__)",
+              list(F.fam_errfalsy(res.tier, rng)), ic)
     call_unit(res, "calls passing an unexpected keyword named like a reserved name, then ordinary calls",
               list(F.fam_badkw(res.tier, rng)), ic)
     call_unit(res, "sync / coroutine-function / coroutine-returning / awaitable-returning conditions and captures on "
@@ -98,6 +100,8 @@ def c02(res: CheckResult) -> None:
               F.with_bare_override(F.fam_post(res.tier, rng), rng, 500 if res.tier == "quick" else 4000), ic)
     call_unit(res, "contract errors deriving from BaseException, the same contract violated three times in a row",
               list(F.fam_errbase(res.tier, rng)), ic)
+    call_unit(res, "contract errors that are falsy objects (exception types with __bool__ / __len__)",
+              list(F.fam_errfalsy(res.tier, rng)), ic)
     call_unit(res, "calls passing an unexpected keyword named like a reserved name, then ordinary calls",
               list(F.fam_badkw(res.tier, rng)), ic)
     call_unit(res, "sync / coroutine-function / coroutine-returning / awaitable-returning conditions and captures on "
@@ -151,6 +155,8 @@ def c09(res: CheckResult) -> None:
     T.check_misuse(res, ic, only=lambda cell: cell["m"].startswith("error_"))
     call_unit(res, "contract errors deriving from BaseException, the same contract violated three times in a row",
               list(F.fam_errbase(res.tier, rng)), ic)
+    call_unit(res, "contract errors that are falsy objects (exception types with __bool__ / __len__)",
+              list(F.fam_errfalsy(res.tier, rng)), ic)
 
 
 @check("C16")
@@ -196,6 +202,8 @@ def c03(res: CheckResult) -> None:
               list(F.fam_inv_sub(res.tier, rng)), ic, require_outcomes=["ret", "Violation"])
     call_unit(res, "contract errors deriving from BaseException, the same contract violated three times in a row",
               list(F.fam_errbase(res.tier, rng)), ic)
+    call_unit(res, "contract errors that are falsy objects (exception types with __bool__ / __len__)",
+              list(F.fam_errfalsy(res.tier, rng)), ic)
     from icv import tablecheck as T
     T.check_calls(res, ic, only=lambda cell: cell["shape"].startswith("builtin_"))
     def_unit(res, "member selection: which members of a class / subclass carry invariant checks, per check_on combination",
@@ -221,6 +229,8 @@ def c11(res: CheckResult) -> None:
               list(F.fam_inv_async(res.tier, rng)), ic)
     call_unit(res, "contract errors deriving from BaseException, the same contract violated three times in a row",
               list(F.fam_errbase(res.tier, rng)), ic)
+    call_unit(res, "contract errors that are falsy objects (exception types with __bool__ / __len__)",
+              list(F.fam_errfalsy(res.tier, rng)), ic)
     call_unit(res, "calls passing an unexpected keyword named like a reserved name, then ordinary calls",
               list(F.fam_badkw(res.tier, rng)), ic)
     call_unit(res, "sync / coroutine-function / coroutine-returning / awaitable-returning conditions and captures on "
